@@ -132,6 +132,11 @@ type Mapper struct {
 	BadOnCall  int // 1-based ordinal of the call that returns a wrong column count
 	BadDelta   int // +1 or -1
 	OnFail     func() // called (inside the lookup) just before a scripted failure is returned
+	// Versions: for a table name, what the mapper answers on its 1st, 2nd, ...
+	// lookup of that name (a schema that changes over time); nil = always the
+	// first version of the history
+	Versions map[[2]string][]*hist.Table
+	lookups  map[[2]string]int
 	tr         *sim.Trace
 	totalCalls int
 }
@@ -175,6 +180,17 @@ func (m *Mapper) MysqlTable(name gobinlog.MysqlTableName) (gobinlog.MysqlTable, 
 		}
 		return nil, ErrMapper
 	}
+	if vs := m.Versions[[2]string{name.DbName, name.TableName}]; len(vs) > 0 {
+		if m.lookups == nil {
+			m.lookups = map[[2]string]int{}
+		}
+		k := m.lookups[[2]string{name.DbName, name.TableName}]
+		m.lookups[[2]string{name.DbName, name.TableName}] = k + 1
+		if k >= len(vs) {
+			k = len(vs) - 1
+		}
+		t = vs[k]
+	}
 	mt := &mTable{name: name}
 	for _, c := range t.Cols {
 		mt.cols = append(mt.cols, mCol{c.Name, c.Unsigned})
@@ -217,6 +233,8 @@ type HandlerScript struct {
 	// InlineError makes the goroutine that called Stream call Error() right
 	// after Stream returned, with no delay in between (the way a caller would)
 	InlineError bool
+	// WithDeadline runs the attempt under a context that also carries a (far) deadline
+	WithDeadline bool
 	OnCall   func(n int, tx *gobinlog.Transaction, d *Delivered) // extra monitor (C08)
 }
 
@@ -368,6 +386,12 @@ type Running struct {
 // Start begins an attempt.
 func (s *Session) Start(hs HandlerScript, xo *xport.Options) *Running {
 	ctx, cancel := context.WithCancel(context.Background())
+	if hs.WithDeadline {
+		dctx, dcancel := context.WithDeadline(ctx, time.Now().Add(24*time.Hour))
+		ctx = dctx
+		oc := cancel
+		cancel = func() { dcancel(); oc() }
+	}
 	s.mu.Lock()
 	att := s.attempts
 	s.attempts++
